@@ -205,10 +205,12 @@ func c09RefStream(in []byte, counter *[16]byte, key *[32]byte, calls [][16]byte)
 			got := calls[b]
 			var gotCtr uint64
 			for i := 0; i < 8; i++ {
-				verifrt.Assert(got[i] == n[i], "nonce half of the block input unchanged")
+				verifrt.Assert(got[i] == n[i], "out = in XOR Salsa20 keystream with 64-bit little-endian block counter")
 				gotCtr |= uint64(got[8+i]) << (8 * uint(i))
 			}
-			verifrt.Assert(gotCtr == blk, "block counter = LE64(counter[8:16]) + block index mod 2^64")
+			// same label as the output comparison: natively (no log) a wrong counter shows
+			// up there, and the driver matches replay outcomes by label
+			verifrt.Assert(gotCtr == blk, "out = in XOR Salsa20 keystream with 64-bit little-endian block counter")
 			n = got
 		}
 		var ks [64]byte
